@@ -46,10 +46,12 @@ def check(tier, seed):
         cfg = os.path.join(scratch, 'api.cfg')
         open(cfg, 'w').write('SPECIFICATION Spec\n')
         out = os.path.join(scratch, 'api.ndjson')
-        r = tlc.run_tlc('Api.tla', cfg, scratch, workers=1, env={'OUT_FILE': out})
+        out2 = os.path.join(scratch, 'login.ndjson')
+        r = tlc.run_tlc('Api.tla', cfg, scratch, workers=1, env={'OUT_FILE': out, 'OUT_FILE2': out2})
         if not os.path.exists(out):
             raise tlc.TLCError('Api oracle produced nothing:\n' + r['out'][-3000:])
         rows = [json.loads(l) for l in open(out) if l.strip()]
+        login_rows = [json.loads(l) for l in open(out2) if l.strip()]
     finally:
         shutil.rmtree(scratch, ignore_errors=True)
     if REPO not in sys.path:
@@ -67,14 +69,14 @@ def check(tier, seed):
     bitbucket_api.PullRequest = mock_api.PullRequest
 
     class MockBertE(bemod.BertE):
-        def __init__(self, host):
+        def __init__(self, host, organization=''):
             self.client = mock_api.Client('login', 'password', 'email')
             self.project_repo = SimpleNamespace(owner='test_owner', slug='test_repo',
                                                 full_name='test_owner/test_repo')
             self.settings = SettingsDict(dict(
                 repository_host=host, repository_owner='owner', repository_slug='slug', build_key='pre-merge',
                 pull_request_base_url='https://h/pr/{pr_id}', commit_base_url='https://h/c/{commit_id}',
-                admins=['test_admin'], organization='', frontend_url=''))
+                admins=['test_admin'], organization=organization, frontend_url=''))
             self.git_repo = SimpleNamespace()
             self.task_queue = Queue()
             self.tasks_done = deque(maxlen=1000)
@@ -259,6 +261,68 @@ def check(tier, seed):
             bad.append(dict(request={k: row[k] for k in ('kind', 'path', 'method', 'session', 'param')},
                             expected=dict(cls=row['class'], job=row['job']), status=code,
                             jobs=[type(j).__name__ for j in jobs], problem=prob))
+    # ---- the login flow (Api.tla LoginRows): /api/auth with a host token, then requests on the same session
+    import loginpass
+    PROFILES = {
+        'nouser': {'email': 'x@scality.com'},
+        'member': {'preferred_username': 'Test_User', 'email': 'u@scality.com'},
+        'member_admin': {'preferred_username': 'Test_Admin', 'email': 'a@scality.com'},
+        'outsider': {'preferred_username': 'mallory', 'email': 'm@evil.example'},
+        'outsider_admin': {'preferred_username': 'test_admin', 'email': 'a@evil.example'},
+        'noemail': {'preferred_username': 'anon'},
+        'noemail_admin': {'preferred_username': 'test_admin'},
+        'lookalike': {'preferred_username': 'mallory', 'email': 'm@scality.com.evil.example'},
+    }
+    saved_profiles = {}
+    for backend in (loginpass.Bitbucket, loginpass.GitHub):
+        saved_profiles[backend] = backend.profile
+        backend.profile = lambda self, token=None, **kw: dict(PROFILES[token['access_token']])
+    JS = {'Content-Type': 'application/json', 'Accept': 'application/json'}
+    FOLLOW_URL = {'jobs': '/api/jobs', 'job': '/api/jobs/no-such-job', 'pr': '/api/pull-requests/1',
+                  'branch': '/api/gwf/branches/development/4.3', 'queues': '/api/gwf/queues'}
+    n_login = 0
+    try:
+        for row in login_rows:
+            for host in ('bitbucket', 'github'):
+                b = MockBertE(host, 'scality.com' if row['param'] == 'set' else '')
+                c = server.setup_server(b).test_client()
+                resp = c.get('/api/auth' + ('' if row['path'] == 'notoken' else '?access_token=' + row['path']),
+                             headers=JS)
+                n_login += 1
+                steps = [('login', resp.status_code)]
+                prob = None
+                if row['class'] == 'refuse' and resp.status_code < 400:
+                    prob = 'login must be refused (status %d)' % resp.status_code
+                elif row['class'] == 'login_ok' and resp.status_code >= 400:
+                    prob = 'login of an authorised profile refused (status %d)' % resp.status_code
+                if row['logout'] and not prob:
+                    steps.append(('logout', c.get('/logout').status_code))
+                for f in row['follow']:
+                    if prob:
+                        break
+                    drain(b)
+                    r2 = getattr(c, f['method'].lower())(FOLLOW_URL[f['path']], data='{}', headers=JS)
+                    jobs = drain(b)
+                    n_login += 1
+                    steps.append((f['method'] + ' ' + f['path'], r2.status_code, [type(j).__name__ for j in jobs]))
+                    if f['class'] == 'refuse' and (jobs or r2.status_code < 400):
+                        prob = '%s %s after this login must be refused and enqueue nothing (status %d, %d jobs)' % (
+                            f['method'], f['path'], r2.status_code, len(jobs))
+                    elif f['class'] == 'enqueue' and (len(jobs) != 1 or type(jobs[0]).__name__ != f['job']):
+                        prob = '%s %s after this login must create one %s (status %d, jobs %s)' % (
+                            f['method'], f['path'], f['job'], r2.status_code, [type(j).__name__ for j in jobs])
+                    elif f['class'] == 'read' and (jobs or r2.status_code in (401, 403)):
+                        prob = '%s %s after this login must answer and enqueue nothing (status %d)' % (
+                            f['method'], f['path'], r2.status_code)
+                classes.add(('login', row['class'], row['session']))
+                if prob:
+                    bad.append(dict(request=dict(kind='login', host=host, profile=row['path'], organization=row['param'],
+                                                 logout=row['logout']),
+                                    expected=dict(cls=row['class'], session=row['session']), status=resp.status_code,
+                                    jobs=[], steps=steps, problem=prob))
+    finally:
+        for backend, prof in saved_profiles.items():
+            backend.profile = prof
     rdir = os.path.join(explore.VERIF, 'replays')
     os.makedirs(rdir, exist_ok=True)
     viol = []
@@ -270,17 +334,20 @@ def check(tier, seed):
     if skipped:
         print('note: %d cells of the matrix could not be driven offline (first: %s)' % (len(skipped), skipped[0]))
     evidence.write('C14', tier, seed, 'model_checking', dict(
-        states=len(rows), transitions=len(rows), traces_validated_against_impl=n,
+        states=len(rows) + len(login_rows), transitions=len(rows) + n_login, traces_validated_against_impl=n + n_login,
+        login_sequences=2 * len(login_rows),
         samples=rows[:3], evaluations=n, distinct_nontrivial=len(classes),
         rule='the full matrix of spec/Api.tla: 5 API paths x 5 methods x 3 sessions x parameter classes; 6 forms x 5 '
              'methods x 3 sessions; 2 webhook routes x 3 credentials x 3 repository identities x event types; plus '
-             'the comparison of the registered routes with the table; distinct = (kind, expected class, status code)',
+             'the comparison of the registered routes with the table; login flow: 9 host profiles x organisation set/unset '
+             'x logout, on both hosts, each followed by the 8 endpoints on the same session; distinct = (kind, expected class, status code)',
         cells_not_driven=len(skipped), routes_registered=len(routes), disagreements=len(bad), exhaustive=True,
         explanation='spec/Api.tla evaluated by TLC; every cell sent through the Flask test client'),
-        ['OAuth login is replaced by a session set through the test client (as in the project tests)',
+        ['in the request matrix the session is set through the test client (as in the project tests); the login flow '
+         'itself is driven through /api/auth with the host profile call (loginpass .profile) answered locally',
          'form callbacks are only checked for authorisation and for not enqueueing by themselves (they call the API '
          'over HTTP, which needs a network)', 'GitHub payloads are minimal schema-valid documents'],
         time.time() - t0, new)
-    print('C14: %d requests of the matrix sent to the real Flask app, %d disagreements, %d cells not driven'
-          % (n, len(bad), len(skipped)))
+    print('C14: %d requests of the matrix and %d requests of %d login sequences sent to the real Flask app, '
+          '%d disagreements, %d cells not driven' % (n, n_login, 2 * len(login_rows), len(bad), len(skipped)))
     return 1 if new else 0
